@@ -1,5 +1,6 @@
 SPECIFICATION MCSpec
 CONSTANTS
+  AllSchedules = TRUE
   PermuteModules = FALSE
   MaxP = 6
   Recvs = {"none", "const", "mut"}
